@@ -11,7 +11,7 @@
 (* values (the only oracle).  Run with `tlc -simulate`; a pair is written  *)
 (* when both phases are complete.                                          *)
 (***************************************************************************)
-EXTENDS Gen_Schema
+EXTENDS Schema
 CONSTANTS GrowSteps, EditSteps
 VARIABLES ta, tb, tc, phase, n   \* tc: a second text, derived from the first by further edits (sequences of updates)
 
@@ -77,4 +77,8 @@ REmit == (phase = "edit2" /\ n = 2) =>
                              schema |-> M, lazy |-> LazyMerge(E, V),
                              schema2 |-> SchemaMerge(M, V),
                              schema12 |-> SchemaMerge(M, W)])>>, IOEnv.OUT)
+\* the handler's I-model (spec/Schema.tla) on every emitted pair, and on the second update of the sequence
+RModelOk == (phase = "edit2" /\ n = 2) =>
+  \A E \in {DenT(ta)} : \A V \in {DenT(tb)} : \A W \in {DenT(tc)} :
+    PairOk(E, V) /\ (~EmptyObjShape(E, V) /\ ~ArrObjShape(E, V) => PairOk(SchemaMerge(E, V), W))
 =============================================================================
